@@ -904,9 +904,10 @@ class Configuration(object):
         #   behave --color auto features/some.feature   # NO_PROBLEM
         if "--color" in command_args:
             color_arg_pos = command_args.index("--color")
-            next_arg = command_args[color_arg_pos + 1]
-            if os.path.exists(next_arg):
-                command_args.insert(color_arg_pos + 1, "--")
+            next_arg_pos = color_arg_pos + 1
+            if (next_arg_pos < len(command_args) and
+                    os.path.exists(command_args[next_arg_pos])):
+                command_args.insert(next_arg_pos, "--")
 
         if verbose is None:
             # -- AUTO-DISCOVER: Verbose mode from command-line args.
